@@ -837,6 +837,110 @@ def one_append_per_column(rep):
     rep.check(ok, "column-shape", key + "::one-append-per-column", why, node=loop)
 
 
+def dataset_read_key(rep):
+    """The dataset read for a column is named by the writer's key template: every `f[K]` of
+    read_aurel_data (f the opened cache file) has K = <name> + ' rl=' + <level> with the tail of
+    a writer template, and <name> is the column `data[<name>]` the value is appended to.  A key
+    drawn from the file's own keys is exact only when it is compared for equality with that
+    template; a substring test whose last field is the level number selects ' rl=10' for
+    level 1."""
+    sv, fn = fnode(rep, "save_data"), fnode(rep, "read_aurel_data")
+    rkey = f"{RD}::read_aurel_data::dataset-read-key"
+    wtails = set()
+    for t, _n in templates_with(sv, " rl="):
+        i = max(j for j, (k, v) in enumerate(t) if k == "s" and " rl=" in v)
+        wtails.add(tuple(t[i:]))
+    if not wtails:
+        raise AnalysisError("save_data: dataset key template not found")
+    h5names = {x.optional_vars.id for n in ast.walk(fn) if isinstance(n, ast.With)
+               for x in n.items if isinstance(x.optional_vars, ast.Name)
+               and "h5py.File" in unparse(x.context_expr)}
+    reads = [n for n in ast.walk(fn) if isinstance(n, ast.Subscript)
+             and isinstance(n.ctx, ast.Load) and isinstance(n.value, ast.Name)
+             and n.value.id in h5names]
+    if not reads:
+        raise AnalysisError("read_aurel_data: no dataset read `f[key]` found")
+
+    def from_file_keys(it):
+        t = unparse(it)
+        return any(t in (h, f"{h}.keys()", f"list({h}.keys())", f"list({h})", f"sorted({h})",
+                         f"sorted({h}.keys())") for h in h5names)
+
+    def judge_tests(tests, kname, node):
+        """tests that select the key `kname` among the file's keys"""
+        exact, substring = False, None
+        for t in tests:
+            for c in ([t] if not (isinstance(t, ast.BoolOp) and isinstance(t.op, ast.And))
+                      else t.values):
+                if not (isinstance(c, ast.Compare) and len(c.ops) == 1):
+                    continue
+                l, r = c.left, c.comparators[0]
+                if isinstance(c.ops[0], ast.Eq) and kname in (unparse(l), unparse(r)):
+                    other = r if unparse(l) == kname else l
+                    tp = sem_template(fn, other)
+                    if any(k == "s" and " rl=" in v for k, v in tp):
+                        i = max(j for j, (k, v) in enumerate(tp) if k == "s" and " rl=" in v)
+                        if tuple(tp[i:]) in wtails and i >= 1:
+                            exact = True
+                if isinstance(c.ops[0], ast.In) and unparse(r) == kname:
+                    tp = sem_template(fn, l)
+                    if any(k == "s" and " rl=" in v for k, v in tp) and tp[-1][0] == "h":
+                        substring = c
+        if exact:
+            return True
+        if substring is not None:
+            rep.violation("template-agreement", rkey,
+                          f"the dataset read is selected among the file's keys by the substring "
+                          f"test `{unparse(substring)}`: the level number is the last field of "
+                          "the key, so level 1 also selects ' rl=10'..' rl=19' and the array of "
+                          "another level is returned under this one", node=node)
+            return False
+        raise AnalysisError(f"read_aurel_data: how the key of `{unparse(node)}` is selected "
+                            "among the file's keys is not understood")
+
+    for rd in reads:
+        st = parent_stmt(rd)
+        K = rd.slice
+        tp = sem_template(fn, K)
+        if any(k == "s" and " rl=" in v for k, v in tp):
+            i = max(j for j, (k, v) in enumerate(tp) if k == "s" and " rl=" in v)
+            ok = tuple(tp[i:]) in wtails and i == 1 and tp[0][0] == "h"
+            # the name part is the column that receives the value
+            col = None
+            for a in ancestors(rd):
+                if isinstance(a, ast.Call) and isinstance(a.func, ast.Attribute) \
+                        and a.func.attr == "append" and isinstance(a.func.value, ast.Subscript):
+                    col = a.func.value.slice
+            if ok and col is not None:
+                ok = sem_template(fn, col) == [tp[0]]
+            rep.check(ok, "template-agreement", rkey,
+                      f"the dataset read `{unparse(rd)}` is named "
+                      f"{''.join(v if k == 's' else '{' + v + '}' for k, v in tp)}: not the "
+                      "writer's <name> + ' rl=' + <level> with <name> the column it is "
+                      "returned under", node=rd)
+            continue
+        R = resolve(fn, K)
+        # a key drawn from the file's own keys: by a loop ...
+        if isinstance(K, ast.Name):
+            lv = local_value(st, K.id, fn)
+            if isinstance(lv, tuple) and from_file_keys(lv[1].iter):
+                tests = [a.test for a in ancestors(rd) if isinstance(a, ast.If)
+                         and any(rd is x or rd in list(ast.walk(x)) for b in a.body
+                                 for x in [b])]
+                judge_tests(tests, K.id, rd)
+                continue
+        # ... or by a table built from them
+        if isinstance(R, ast.Subscript) and isinstance(R.value, ast.DictComp) \
+                and len(R.value.generators) == 1 \
+                and from_file_keys(R.value.generators[0].iter) \
+                and unparse(R.value.value) == unparse(R.value.generators[0].target):
+            g = R.value.generators[0]
+            judge_tests(list(g.ifs), unparse(g.target), rd)
+            continue
+        raise AnalysisError(f"read_aurel_data: the key of the dataset read `{unparse(rd)}` is "
+                            "not understood")
+
+
 # =============================================================================================
 # read_ET_data: per-iteration cache
 # =============================================================================================
@@ -1591,6 +1695,140 @@ def chunk_coverage(rep):
                               "beyond it are never read", node=d)
     if n < 2:
         raise AnalysisError("chunk-coverage: the chunk ranges were not found")
+
+
+def per_restart_state(rep):
+    """What iterations() records for a restart is built from that restart alone: a local that is
+    accumulated (`x += ..`, `x.append/extend/update(..)`) inside the loop over restarts is
+    (re)bound by a plain assignment inside the loop before the accumulation; otherwise what one
+    restart left in it is reported for the next one."""
+    S = rep.sources
+    fn = S.function(RD, "iterations")
+    loops = []
+    for lp in ast.walk(fn):
+        if isinstance(lp, ast.For) and isinstance(lp.target, ast.Name):
+            t = lp.target.id
+            if any(isinstance(a, ast.Assign) and isinstance(a.targets[0], ast.Subscript)
+                   and unparse(a.targets[0].slice) == t and isinstance(a.value, ast.Dict)
+                   and not a.value.keys for a in lp.body):
+                loops.append(lp)
+    if not loops:
+        raise AnalysisError("iterations: the loop that opens a record per restart was not found")
+    n = 0
+    for lp in loops:
+        accs = []
+        for x in ast.walk(lp):
+            if isinstance(x, ast.AugAssign) and isinstance(x.target, ast.Name):
+                accs.append((x.target.id, x))
+            if isinstance(x, ast.Expr) and isinstance(x.value, ast.Call) \
+                    and isinstance(x.value.func, ast.Attribute) \
+                    and isinstance(x.value.func.value, ast.Name) \
+                    and x.value.func.attr in ("append", "extend", "update", "add", "insert"):
+                accs.append((x.value.func.value.id, x))
+        seen = set()
+        for name, st in accs:
+            if name in seen:
+                continue
+            seen.add(name)
+            # a plain binding inside the loop that precedes the accumulation
+            cur, bound = st, False
+            while cur is not lp and cur is not None and not bound:
+                par = getattr(cur, "_parent", None)
+                for field in ("body", "orelse", "finalbody"):
+                    blk = getattr(par, field, None)
+                    if isinstance(blk, list) and any(y is cur for y in blk):
+                        k = [i for i, y in enumerate(blk) if y is cur][0]
+                        for prev in blk[:k]:
+                            if isinstance(prev, ast.Assign) and any(
+                                    isinstance(tg, ast.Name) and tg.id == name
+                                    for tg in prev.targets):
+                                bound = True
+                if isinstance(par, (ast.For, ast.comprehension)) and par is not lp and any(
+                        isinstance(y, ast.Name) and y.id == name
+                        for y in ast.walk(par.target)):
+                    bound = True
+                cur = par
+            # integer counters of the whole call (`n += 1`) are not records of a restart
+            if not bound and isinstance(st, ast.AugAssign) \
+                    and isinstance(const_value(st.value), int):
+                continue
+            n += 1
+            rep.check(bound, "definite-assignment",
+                      f"{RD}::iterations::per-restart-state::{name}",
+                      f"`{name}` is accumulated inside the loop over restarts "
+                      f"(`{norm_src(st)[:50]}`) but only initialised outside it: what an "
+                      "earlier restart left in it is recorded for the later ones", node=st)
+    if n < 1:
+        raise AnalysisError("iterations: no per-restart accumulator was found")
+
+
+def iteration_coverage(rep):
+    """Every requested iteration is looked for in every file: the loop whose variable is
+    compared with the parsed 'it' of the keys runs over the normalised request itself, so the
+    `not found -> raise` guard in its body decides for each requested iteration.  A loop over
+    the request filtered by what the file holds skips a missing iteration without raising and
+    the pieces of the other files are joined into a partial array."""
+    S = rep.sources
+    fn = S.function(RD, "read_ET_group_or_var")
+    key = f"{RD}::read_ET_group_or_var::iteration-coverage"
+    req = [n for n in ast.walk(fn) if isinstance(n, ast.Assign)
+           and "kwargs.get('it'" in unparse(n.value)]
+    if len(req) != 1:
+        raise AnalysisError("read_ET_group_or_var: the binding of the requested iterations "
+                            "not found")
+    rq = unparse(req[0].value)
+
+    def strip(t):
+        t = t.replace(" ", "")
+        changed = True
+        while changed:
+            changed = False
+            for w in ("sorted(", "list(", "tuple("):
+                if t.startswith(w) and t.endswith(")") and _balanced(t[len(w):-1]):
+                    t = t[len(w):-1]
+                    changed = True
+        return t
+    found = 0
+    for lp in ast.walk(fn):
+        if not (isinstance(lp, ast.For) and isinstance(lp.target, ast.Name)):
+            continue
+        v = lp.target.id
+        uses = [c for c in ast.walk(lp) if isinstance(c, ast.Compare) and len(c.ops) == 1
+                and isinstance(c.ops[0], ast.Eq) and "['it']" in unparse(c)
+                and any(isinstance(x, ast.Name) and x.id == v for x in ast.walk(c))]
+        if not uses:
+            continue
+        found += 1
+        full = rtext(fn, lp.iter)
+        if strip(full) == strip(rq):
+            # the body refuses an iteration with no key
+            raises = [st for st in lp.body if isinstance(st, ast.If)
+                      and any(isinstance(x, ast.Raise) for x in st.body)
+                      and isinstance(st.test, ast.UnaryOp) and isinstance(st.test.op, ast.Not)]
+            rep.check(bool(raises), "chunk-coverage", key,
+                      "the loop over the requested iterations does not refuse an iteration "
+                      "for which the file has no key", node=lp)
+        elif rq.replace(" ", "") in full.replace(" ", ""):
+            rep.violation("chunk-coverage", key,
+                          f"the keys are looked up for `{unparse(lp.iter)}` only, a subset of "
+                          "the requested iterations decided by the file: a requested iteration "
+                          "the file does not hold is skipped instead of refused, and the "
+                          "pieces of the other files are joined into a partial array", node=lp)
+        else:
+            raise AnalysisError("read_ET_group_or_var: the iterations the keys are looked up "
+                                f"for (`{unparse(lp.iter)}`) are not understood")
+    if not found:
+        raise AnalysisError("read_ET_group_or_var: the loop over iterations was not found")
+
+
+def _balanced(t):
+    d = 0
+    for ch in t:
+        d += ch == "("
+        d -= ch == ")"
+        if d < 0:
+            return False
+    return d == 0
 
 
 def ghost_and_axes(rep):
